@@ -279,6 +279,8 @@ def run_script(case, journaled):
                     problems.append((si, depth + inner, bad[:5]))
                 journals.extend(closed)
     snap = snapshot.take(u, with_ids=False)
+    # (how often the functions of lazy constants were called belongs to the state: the user's code observes it)
+    snap.append(("lazy-evaluations", getattr(u, "lazy_calls", 0)))
     return dict(outcomes=outcomes, snapshot=snap, journals=journals, problems=problems, stats=stats, u=u)
 
 
